@@ -110,6 +110,10 @@ def cases(tier, seed):
     for i in range(len(SPECIAL_R)):
         out.append({"id": "sphere-quarter-wave#%d" % i,
                     "kind": "spherespecial", "i": i})
+    # dimensions that are zero or negative
+    for i in range(len(BAD_DIMS)):
+        out.append({"id": "robust-dimensions#%d" % i, "kind": "baddims",
+                    "i": i})
     # sizes beyond the Fortran dimension limits
     for sh in ROB_SHAPES[:2]:
         for x in ([150.0] if tier == "quick" else [105.0, 150.0, 250.0]):
@@ -415,6 +419,38 @@ def _run_spherespecial(case, ck):
     return digest(fp_values(S))
 
 
+BAD_DIMS = [("spheroid", (-0.4, 0.5)), ("spheroid", (0.4, -0.5)),
+            ("spheroid", (-0.4, -0.5)), ("spheroid", (0.0, 0.5)),
+            ("spheroid", (0.4, 0.0)), ("cylinder", (-0.4, 0.8)),
+            ("cylinder", (0.4, -0.8)), ("cylinder", (0.0, 0.8)),
+            ("cylinder", (0.4, 0.0)), ("sphere", (-0.5,)), ("sphere", (0.0,))]
+
+
+def _run_baddims(case, ck):
+    """zero or negative dimensions: a Python exception or finite values,
+    never a dead interpreter (decided by the explorer's isolation)"""
+    from holopy.scattering import (Tmatrix, Sphere, Spheroid, Cylinder,
+                                   calc_holo)
+    kind, dims = BAD_DIMS[case["i"]]
+    det = H.det_points([[0.0, 0.0, 0.0], [0.9, 0.2, 0.0]])
+    try:
+        if kind == "spheroid":
+            s = Spheroid(n=1.59, r=dims, rotation=(0, 0.4, 0.7),
+                         center=CENTER)
+        elif kind == "cylinder":
+            s = Cylinder(n=1.59, d=dims[0], h=dims[1],
+                         rotation=(0, 0.4, 0.7), center=CENTER)
+        else:
+            s = Sphere(n=1.59, r=dims[0], center=CENTER)
+        h = calc_holo(det, s, H.NMED, H.WL, (1, 0), theory=Tmatrix()).values
+        ck.trans += 1
+    except Exception as e:
+        return "exception:" + type(e).__name__
+    ck.true("finite", np.isfinite(h).all(), "%s with dimensions %r: "
+            "non-finite values %r" % (kind, dims, h.tolist()))
+    return digest(fp_values(h))
+
+
 def _run_robustdet(case, ck):
     import holopy as hp
     from holopy.scattering import (Tmatrix, Sphere, calc_scat_matrix,
@@ -505,5 +541,6 @@ def run_case(case):
         return ck.result(fp=fp, outcome=outcome)
     fp = {"sphere": _run_sphere, "equalaxes": _run_equalaxes,
           "sym": _run_sym, "history": _run_history,
-          "spherespecial": _run_spherespecial}[case["kind"]](case, ck)
+          "spherespecial": _run_spherespecial,
+          "baddims": _run_baddims}[case["kind"]](case, ck)
     return ck.result(fp=fp)
